@@ -144,6 +144,24 @@ Theorem C17_well_formed_refuted_before_fix_map_object :
 Proof. exact before_fix_map_object_receiver. Qed.
 Print Assumptions C17_well_formed_refuted_before_fix_map_object.
 
+(* ---- known finding type_argument_with_containers: C17_copy_equal_fresh_unshared is PARTIAL through its hypothesis
+        [wt] - the value of a bare type-parameter field is a scalar, i.e. no type argument of an instantiation is, or
+        by value contains, a slice or map.  Outside that guard the sentence is false for the repaired generator:
+        Page[T]{Item T}, Root{L Page[Labels]}, Labels a map type - the graph satisfies dom, Page's method assigns Item,
+        the copy is deeply equal but reaches the original's cell, and a write through it changes the original ---- *)
+
+Theorem C17_unshared_refuted_type_argument_with_containers :
+  dom_b w_tparg = true /\
+  exists ms v',
+    gen_deepcopy 8 all_fixed w_tparg [bs "Labels"; bs "Page"; bs "Root"] [] = Ok ms /\
+    find_into ms (bs "Page") = Some [SAssign (bs "Item")] /\
+    exec_copy 4 w_tparg ms (bs "Root") w_tparg_value w_tparg_heap = Ok (v', w_tparg_heap) /\
+    snapshot w_tparg_heap v' = snapshot w_tparg_heap w_tparg_value /\
+    locs v' = [0] /\
+    snapshot (write w_tparg_heap 0 (CMap [])) w_tparg_value <> snapshot w_tparg_heap w_tparg_value.
+Proof. exact type_argument_map_shared. Qed.
+Print Assumptions C17_unshared_refuted_type_argument_with_containers.
+
 (* ---- non-vacuity: a type graph with an untagged dependency, a generic struct and a field of its
         instantiation, a named map, a named scalar, a named interface, an error field and the interfaces tag
         satisfies every hypothesis; the theorems' conclusions, computed ---- *)
